@@ -1300,9 +1300,12 @@ class ClassicChannel(utils.EventEmitter):
             return await self.disconnection_result
 
     def abort(self) -> None:
-        if self.state == self.State.OPEN:
+        if self.state in (self.State.OPEN, self.State.WAIT_DISCONNECT):
             self._change_state(self.State.CLOSED)
             self.emit(self.EVENT_CLOSE)
+        if self.disconnection_result:
+            self.disconnection_result.set_result(None)
+            self.disconnection_result = None
 
     def send_configure_request(self) -> None:
         options: list[tuple[int, bytes]] = [
